@@ -200,7 +200,7 @@ func (x *Exec) frameGoals(st *State, fr *Frame, pvar func(comp string) string) [
 				continue
 			}
 			x.leafAddrs(m.addr, m.t, func(a string, lt types.Type) {
-				if compName(x.w.sortOf(lt)) == name {
+				if compName(x.w.compKey(lt)) == name {
 					excl = append(excl, snot(app("=", p, a)))
 				}
 			})
